@@ -212,7 +212,10 @@ def run_case(ctx, g, rng):
         kw = {"header": header, "strict": strict, "passthrough": pt, "ambiguous": amb}
         if sep is not None or rng.random() < 0.3:
             kw["sep"] = sep
-        o = call(getattr(fresh(), meth), path if rng.random() < 0.5 else str(path), col, **kw)
+        # (the column is addressed from the front or, one call in five, from the end: -1 is the last column)
+        col_arg = col if rng.random() < 0.8 else col - ncols
+        o = call(getattr(fresh(), meth), path if rng.random() < 0.5 else str(path), col_arg, **kw)
+        S.counters["wl:column-addressed-from-the-end"] += col_arg < 0
         probe.note_key(f"{meth}:s{int(strict)}p{int(pt)}a{int(amb)}:h{int(header)}:sep{sep}:col{min(col, 2)}of{ncols}:{o[0]}:{'+'.join(sorted(feats))}:h{int(hostile)}",
                        hostile or bool(feats))
         S.counters[f"wl:{meth}:{o[0]}"] += 1
